@@ -65,7 +65,7 @@ def gen(rng, i, tier):
     kinds = rng.choice(["123M", "1234", "1234M", ALLTYPES, "23", "24"])
     rows = rng.randrange(1, 14)
     ns = []
-    dens = rng.choice([[1], [1, 2], [4], [1, 3]])
+    dens = rng.choice([[1], [1, 2], [4], [1, 3], [1, 3], [7, 10], [64, 3], [5, 100]])      # the last three leave the 1/48 grid: distinct beats may share a tick
     beats = sorted({Fraction(rng.randrange(0, 8 * d), d) for d in [rng.choice(dens) for _ in range(rows)]})
     for b in beats:
         for c in range(cols):
